@@ -1,5 +1,6 @@
 """C10 - a macro assembles to exactly its expanded instruction sequence (metamorphic)."""
 from __future__ import annotations
+import re
 
 import copy
 
@@ -300,7 +301,15 @@ def expand_invocation(isa, item):
     texts = [isagen.render_operand(o) for o in item['ops']]
     # operand strings as the statement splitter sees them: text after the mnemonic, split on ','
     raw = (' ' + ', '.join(texts)).lstrip(' ') if texts else ''
-    op_strings = raw.split(',') if raw else []
+    # (the comma of the character literal ',' separates nothing)
+    op_strings = []
+    if raw:
+        start = 0
+        for m in re.finditer(r"'.'|,", raw):
+            if m.group(0) == ',':
+                op_strings.append(raw[start:m.start()])
+                start = m.end()
+        op_strings.append(raw[start:])
     lines = []
     for tmpl in v['instructions']:
         s = tmpl
